@@ -39,7 +39,7 @@ def setup(tmp, seed, names):
     base = make_genome(rng)
     qs = [[make_genome(rng, base)], [make_genome(rng, base)[:150], make_genome(rng)[:90]]]
     rs = [[base], [make_genome(rng, base)], [make_genome(rng)]]
-    env = dict(q=qs, r=rs, qfiles=[], rfiles=[], qsig={}, rsig={}, db={}, qsig_empty={}, rsig_empty={})
+    env = dict(q=qs, r=rs, qfiles=[], rfiles=[], qsig={}, rsig={}, db={}, qsig_empty={}, rsig_empty={}, rsig_twin={})
     for i, c in enumerate(qs):
         env['qfiles'].append(W.write_fasta(os.path.join(tmp, 'q', f'query{i}.fasta'), c))
     for i, c in enumerate(rs):
@@ -57,12 +57,32 @@ def setup(tmp, seed, names):
             epath = os.path.join(tmp, f'{side}_{name}_empty.gs')
             dump_signatures(epath, SignatureList([], ks))
             env[side + 'sig_empty'][name] = epath
+        # a reference file that the FILE SYSTEM cannot tell from the query file of another parameter set: same number and lengths of
+        # signatures, same id lengths, same integer type, hence the same size in bytes - and (below) the same modification time
+        for other in names:
+            ko, po = PARAMS[other]
+            if other != name and len(po) == len(p) and KmerSpec(ko, po).index_dtype == ks.index_dtype:
+                shape = [len(W.real_signature([ko, po], c)) for c in qs]
+                twin = SignatureArray([np.arange(7, 7 + n_, dtype=ks.index_dtype) for n_ in shape], ks)
+                tpath = os.path.join(tmp, f'rtwin_{other}_{name}.gs')
+                dump_signatures(tpath, AnnotatedSignatures(twin, [f'r{i}' for i in range(len(qs))], SignaturesMeta(id_attr='key')))
+                env['rsig_twin'][other, name] = tpath
         taxa = [dict(name='T', rank='species', parent=0, thr=0.5, report=True, ncbi_id=1)]
         world = dict(kspec=[k, p], taxa=taxa, key='db' + name, version='1',
                      genomes=[dict(key=f'r{i}', desc=f'ref {i}', taxon=1, contigs=c, genbank_acc=None, refseq_acc=None, ncbi_id=None) for i, c in enumerate(rs)])
         d = os.path.join(tmp, 'db_' + name)
         W.build_db(d, world)
         env['db'][name] = d
+    # every signature file carries the same modification time (an unpacked archive, a copied directory)
+    env['twins_same_size'] = 0
+    for (qn, rn), tpath in list(env['rsig_twin'].items()):
+        if os.path.getsize(tpath) == os.path.getsize(env['qsig'][qn]):
+            env['twins_same_size'] += 1
+        else:
+            del env['rsig_twin'][qn, rn]
+    for fn in os.listdir(tmp):
+        if fn.endswith('.gs'):
+            os.utime(os.path.join(tmp, fn), (1_600_000_000, 1_600_000_000))
     return env
 
 
@@ -88,7 +108,8 @@ def command(env, row, out, idx):
             for f in env['qfiles']:
                 args += ['-q', f]
         if r['kind'] == 'sigs':
-            args += ['--rs', env['rsig_empty' if refuse and idx % 4 == 3 else 'rsig'][r['ks']]]
+            twin = env['rsig_twin'].get((q.get('ks'), r['ks'])) if q['kind'] == 'sigs' and refuse and idx % 4 in (0, 2) else None
+            args += ['--rs', twin or env['rsig_empty' if refuse and idx % 4 == 3 else 'rsig'][r['ks']]]
         elif r['kind'] == 'db':
             args += ['--use-db']
         elif r['kind'] == 'square':
